@@ -32,6 +32,9 @@ pub enum ExpSpec {
 pub enum NbfSpec {
     Absent,
     Rel(i64),
+    /// issuer-local now + d, written as a JSON number with a fraction (x.5) or as a float that
+    /// happens to be integral (x.0)
+    RelFrac(i64, bool),
 }
 
 #[derive(Clone, Debug, Serialize, Deserialize, PartialEq)]
@@ -112,7 +115,9 @@ pub fn gen_c09(rng: &mut Rng, tier: Tier) -> Result<Value, serde_json::Error> {
         8..=12 => ExpSpec::Rel(rng.range(0, total.max(1)) + if rng.bool() { 0 } else { offset(rng) % 7200 }), // expires during the timeline
         _ => ExpSpec::Rel(total + 3600 + offset(rng)),                                                      // valid throughout
     };
-    let nbf = match rng.usize(8) {
+    let nbf = match rng.usize(10) {
+        8 => NbfSpec::RelFrac(offset(rng), rng.bool()),
+        9 => NbfSpec::RelFrac(if rng.bool() { -offset(rng) } else { rng.range(0, total.max(1)) }, rng.bool()),
         0..=3 => NbfSpec::Absent,
         4 | 5 => NbfSpec::Rel(-offset(rng)),
         6 => NbfSpec::Rel(offset(rng)),
@@ -229,6 +234,10 @@ pub fn execute(scn_v: &Value) -> RunReport {
             claims.insert("nbf".into(), json!(ti + d));
             Some(ti + d)
         }
+        NbfSpec::RelFrac(d, half) => {
+            claims.insert("nbf".into(), json!((ti + d) as f64 + if *half { 0.5 } else { 0.0 }));
+            Some(ti + d)
+        }
     };
     let claims = Value::Object(claims);
     let ih = World::new_issuer(&scn.issuer.key, scn.issuer.alg.clone());
@@ -259,7 +268,9 @@ pub fn execute(scn_v: &Value) -> RunReport {
     // no verifier can enforce a claim it may never see. The oracle therefore reads nbf from the
     // signed payload and abstains (counted) when it is hidden.
     let signed_payload = Message::parse(&sdjwt, scn.fmt).and_then(|m| world::payload_of(&m));
-    let nbf_num: Option<i64> = signed_payload.as_ref().and_then(|p| p.get("nbf")).and_then(Value::as_i64);
+    // any JSON number counts (integers, x.5, x.0, exponent notation); the window test below has a
+    // 120 s band, so rounding a fraction is immaterial
+    let nbf_num: Option<i64> = signed_payload.as_ref().and_then(|p| p.get("nbf")).and_then(|v| v.as_i64().or_else(|| v.as_f64().map(|f| f as i64)));
     if nbf_claim.is_some() && nbf_num.is_none() {
         rep.count("probe.nbf_hidden_by_strategy_unasserted");
     } else if nbf_claim.is_some() {
